@@ -272,7 +272,8 @@ def run_case(case):
             rec.destroy()
         stats["internal_calls"] = N_calls; stats["journal_writes"] = M_writes
         ks = list(range(1, N_calls + 1))
-        if case.get("tier") != "thorough":
+        if case.get("tier") != "thorough" and cls != "stash-pop-two":
+            # (the two-entry pop is short and its interesting calls are the first few: always every k)
             ks = sorted(set([1, N_calls] + list(range(2 + index % 3, N_calls, 3)))) if N_calls else []
         plan = [("git", mode, k) for mode in ("fail", "fail-after", "kill") for k in ks]
         plan += [("io", "fail", j) for j in range(1, M_writes + 1)]
